@@ -78,6 +78,7 @@ func (Engine) Describe(prop string) core.Description {
 			"O2 cannot see a write that stores an identical value into the same location, nor state hidden inside a closure (NewFunc's bound zero Wrapper): O1 and O3 cover those",
 			"yield points are function entries and loop iterations of the package (instrumented scratch copy); preemption inside a single statement is not simulated but would be reported by O1 when the accesses conflict",
 		},
+		FaultKinds: []string{"forced-preemption (the scheduler takes the processor away at a yield point)"},
 		Probes: []string{"policy-uniform", "policy-pct", "policy-round-robin", "policy-run-to-completion", "tasks>=8", "op-NewURLFromRaw", "op-UnmarshalDocument", "op-UnmarshalPartialResource", "op-New-Set-Get", "op-MarshalDocument", "op-GetType", "op-HasType", "op-Check", "op-Rels", "op-Wrap-own-struct", "context-switch-inside-Rels", "race-log-checked", "schema-with-dangling-target"},
 	}
 }
